@@ -17,28 +17,7 @@ def LIST(**kw):
 PROPS = {}
 NOT_APPLICABLE = {}
 
-PROPS["C05"] = {
-    "title": "Scalar arithmetic is exact modulo the group order on every 255-bit input",
-    "level": "exploration",
-    "technique": "property-based testing (rapid) against a math/big reference model, boundary-catalogue generators, both limb backends",
-    "level_text": ("Generated-input search: every scalar operation and canonicity predicate is compared with integer arithmetic mod L "
-                   "on catalogue-driven and uniform operands (incl. unreduced 255-bit values, 256/512-bit decoder strings, L-prefix strings "
-                   "that walk every word of the minimality test), on the 52-bit and 29-bit limb backends. Does not prove absence."),
-    "level_note": "Trusted: math/big, the reference constant L (self-tested), rapid. Invert/BatchInvert of 0 mod L is documented undefined and excluded.",
-    "rule": ("rapid-generated operands from a boundary catalogue (kL+e, 2^k+-e, 2^k-1, nibble patterns, limb-aligned "
-             "all-ones, word seams, L-prefix strings, uniform reduced/unreduced) compared with math/big mod L; "
-             "non-trivial = some operand is >= L or comes from a boundary class (not plain uniform-reduced/tiny), or a "
-             "non-canonical/wrong-length decoder input; distinct = FNV-64 of the serialised case"),
-    "assumptions": ["math/big is correct", "verifref.L transcribed from RFC 8032 (checked by verifref self-test)"],
-    "units": [{
-        "pkg": "curve/scalar", "configs": {"quick": ["default", "force32bit"], "thorough": ["default", "purego", "force32bit"]},
-        "tests": {
-            "TestC05Arith": T(40000, 4000000),
-            "TestC05Decode": T(40000, 4000000),
-            "TestC05Wide": T(30000, 3000000),
-            "TestC05Slices": T(6000, 400000),
-            "TestC05Unpacked": T(20000, 2000000),
-            "TestC05Lengths": LIST(),
-        },
-    }],
-}
+
+import glob as _glob, os as _os
+for _f in sorted(_glob.glob(_os.path.join(_os.path.dirname(_os.path.abspath(__file__)), "props.d", "C*.py"))):
+    exec(compile(open(_f).read(), _f, "exec"))
